@@ -288,6 +288,17 @@ def discovery_order_metamorphic(ctx: Ctx) -> List[Dict[str, Any]]:
         root = str(tmp / f"tree{t}")
         os.makedirs(root)
         make_tree(ctx.rng, root, 2, [t])
+        if ctx.rng.random() < 0.6:
+            # twin checkouts: one project at one version in two directories with the SAME leaf name under different
+            # parents (vendor/libfoo and third_party/libfoo): only the full path tells them apart
+            leaf = ctx.rng.choice(["libfoo", "core", "pkg"])
+            parents = ctx.rng.sample(["vendor", "third_party", "app/vendor", "zz", "aa/deps"], 2)
+            for par in parents:
+                d = os.path.join(root, par, leaf)
+                os.makedirs(d, exist_ok=True)
+                with open(os.path.join(d, "setup.cfg"), "w") as fh:
+                    fh.write("[metadata]\nname = twin\nversion = 2.0\n")
+            ctx.count("tree:twin-checkouts")
         results = []
         for order in ("sorted", "reversed", "shuffle-a", "shuffle-b"):
             prng = _random.Random(hash((ctx.seed, t, order)) & 0xFFFFFFFF)
